@@ -2,10 +2,9 @@
 
 import ast
 import copy
-from fractions import Fraction
 
 from ..rulekit import *
-from ..norm import Normalizer, Poly, NormError, pow2
+from ..norm import Normalizer, Poly, NormError
 
 R = Rules(
     "C05",
@@ -1004,7 +1003,6 @@ def _block1_roles(ctx):
     r.innermost = innermost
     b1n = "%s.opt.block1" % r.resp
     x1n = "%s.opt.block1" % r.blk
-    r.A = lambda txt: Poly.atom(txt)
     r.match = ("eq", norm._signnorm(Poly.atom(b1n + ".block_number") - Poly.atom(x1n + ".block_number")))
     r.mismatch = ("ne", r.match[1])
     r.final = ("nottruth", x1n + ".more")
